@@ -465,6 +465,23 @@ def build_matrix_builder(kind: str, container: Optional[str] = None) -> LayerBui
         _svc2(b, k, f"ft{k}", [b.value("sel", m)], [b.value("sel", m), b.value("after", u8)])
         b.examples[f"rq_ft{k}"] = [bytes([0x31, k, 2, 7]).hex(), bytes([0x31, k, 200, 1, 2]).hex(), bytes([0x31, k, 7]).hex()]
         k += 1
+        # (6) ENV-DATA nested in its ENV-DATA-DESC (the ODX 2.0 layout) with a PHYS-CONST parameter
+        dtc = b.dtc_dop("ft_dtc", b.slt(bits=24), [("first_trouble", 0x112233, "first"), ("follow_up", 0x445566, "second")])
+        edd = b.env_data_desc("ft_edd", "DTC", [
+            ("common", True, [], [b.value("odo", u8)]),
+            ("for_first", None, [0x112233], [b.phys_const("pc", u8, "7"), b.value("temp", u8)]),
+        ])
+        _svc2(b, k, f"ft{k}", [b.value("mask", u8)], [b.value("DTC", dtc), b.value("dtc_info", edd)])
+        b.examples[f"rs_ft{k}"] = [bytes([0x71, k, 0x11, 0x22, 0x33, 9, 7, 0x55]).hex(), bytes([0x71, k, 0x44, 0x55, 0x66, 9]).hex()]
+        k += 1
+        # (7) dynamic length field with a wide item counter whose items can be of zero size
+        u32 = b.dop("m_u32", b.slt(bits=32))
+        lk = b.length_key(f"len{k}", u8)
+        item = b.structure(f"ft_item{k}", [b.value("v", b.dop(f"ft_pl{k}", b.param_length("A_BYTEFIELD", lk)))])
+        _svc2(b, k, f"ft{k}", [lk, b.value("items", b.dynlen_field(f"ft_f{k}", item, u32, offset=4))], [b.value("pre", u8)])
+        b.examples[f"rq_ft{k}"] = [bytes([0x31, k, 8, 0, 0, 0, 2, 1, 2]).hex(), bytes([0x31, k, 0, 0xFF, 0xFF, 0xFF, 0xFF]).hex(),
+                                   bytes([0x31, k, 0, 0, 0, 0, 3]).hex()]
+        k += 1
     elif kind == "ambig":
         # services whose coding objects cannot be told apart by their constant parts: two positive responses of the
         # same shape, negative responses that differ only in (overlapping) NRC lists and in length
